@@ -43,7 +43,8 @@ class AstToAthenaSqlVisitor(AstToSqlVisitor):
 
     def visit_DateTime(self, node: ast.DateTime) -> str:
         ":meta private:"
-        return f"FROM_ISO8601_TIMESTAMP('{node.val}')"
+        # The 'T' and 'Z' designators are case insensitive in OData, not in ISO 8601:
+        return f"FROM_ISO8601_TIMESTAMP('{node.val.upper()}')"
 
     def sqlfunc_length(self, arg: ast._Node) -> str:
         ":meta private:"
